@@ -233,7 +233,7 @@ char get_operand_type(const char *operand) {
     return 'y';
   if (operand[i] >= '0' && operand[i] <= '9')
     return 'i';
-  if (operand[i] >= '-')
+  if (operand[i] == '-')
     return 'i';
   return 'e';
 }
